@@ -5,8 +5,13 @@
    tools/props/c35.py).  [orig] = the code at ppci 1a712d0, [fixed] = the code with
    fixes/C35-decoder-nak.diff, C35-unescape-terminator.diff, C35-retry-off-by-one.diff applied.
    The *_refuted theorems are witnesses against [orig]; every positive theorem is stated for all
-   configurations that contain the fix(es) it depends on, hence in particular for [fixed]. *)
-From PV Require Import Lib.Py Spec.RspSpec Model.Rsp Proofs.C35_frame Proofs.C35_lts.
+   configurations that contain the fix(es) it depends on, hence in particular for [fixed].
+   Second round (section "receiver survival ..." below): [fixed] additionally contains
+   fixes/C35-ack-queue-full.diff (full_fix), C35-stale-ack.diff (stale_fix),
+   C35-decoder-non-ascii.diff (dec_fix), C35-checksum-digits.diff (hex_fix); [fixed3] is the code
+   with the first three fixes only; the *_refuted theorems of that section show on a configuration
+   with exactly one of these fixes missing that the hypothesis is necessary. *)
+From PV Require Import Lib.Py Spec.RspSpec Model.Rsp Proofs.C35_frame Proofs.C35_lts Proofs.C35_live.
 Open Scope Z_scope.
 
 (* --- framing ----------------------------------------------------------------------------- *)
@@ -150,6 +155,114 @@ Theorem c35_no_loss_no_dup : forall cf tr items pre,
 Proof. exact no_loss_no_dup. Qed.
 Print Assumptions c35_no_loss_no_dup.
 
+(* --- receiver survival, stray acks, strict check digits, all byte values --------------------- *)
+
+(* every schedule, every byte value (bytes are unconstrained integers here): the receiver thread is
+   never terminated by an exception and never blocks in _ack_queue.put *)
+Theorem c35_receiver_never_dies : forall cf tr,
+  dec_fix cf = true -> full_fix cf = true ->
+  dead (run cf init tr) = false /\ blk (run cf init tr) = None.
+Proof. exact receiver_never_dies. Qed.
+Print Assumptions c35_receiver_never_dies.
+
+(* necessity: a byte >= 0x80 inside a packet kills the ascii-decoding receiver *)
+Theorem c35_receiver_dies_non_ascii_refuted :
+  dead (run fixed_but_dec init [LRecv 36; LRecv 97; LRecv 128; LRecv 35; LRecv 69; LRecv 49]) = true.
+Proof. exact dies_without_dec_fix. Qed.
+Print Assumptions c35_receiver_dies_non_ascii_refuted.
+
+(* necessity: two acknowledgements with no sendpkt consuming them: queue.Full ends the thread *)
+Theorem c35_receiver_dies_queue_full_refuted :
+  dead (run fixed_but_full init [LRecv 43; LRecv 43; LPutTimeout]) = true.
+Proof. exact dies_without_full_fix. Qed.
+Print Assumptions c35_receiver_dies_queue_full_refuted.
+
+(* whatever arrives while no send is pending, under any schedule, the next sendpkt starts with an
+   empty acknowledgement queue and cannot complete before an acknowledgement arrives *)
+Theorem c35_stray_ack_harmless : forall cf s tr p r,
+  stale_fix cf = true -> snd_ s = SIdle -> no_send tr = true ->
+  forallb is_ascii_b p = true ->
+  let s2 := run cf (run cf s tr) [LSend p r] in
+  q s2 = None /\ blk s2 = None /\ snd_ s2 = SWait (rsp_pack p) r true /\
+  sent s2 = S (sent s) /\ results s2 = results s /\ step cf s2 LGet = None.
+Proof. exact stray_ack_harmless. Qed.
+Print Assumptions c35_stray_ack_harmless.
+
+(* necessity: a '+' received before the send acknowledges a packet the peer never acknowledged *)
+Theorem c35_stray_ack_refuted :
+  let s := run fixed_but_stale init [LRecv 43; LSend [115] 10; LGet] in
+  results s = [Acked] /\ rxlog s = [43] /\ sent s = 1%nat.
+Proof. exact stale_ack_wrong_waiter_without_fix. Qed.
+Print Assumptions c35_stray_ack_refuted.
+
+(* a delivered packet had two hexadecimal check digits whose value is the checksum *)
+Theorem c35_checksum_digits_strict : forall cf body h1 h2 p,
+  esc_fix cf = true -> hex_fix cf = true ->
+  decodepkt cf (36 :: body ++ [35; h1; h2]) = RDeliver p ->
+  exists a b, hexval h1 = Some a /\ hexval h2 = Some b /\ 16 * a + b = checksum body /\
+              unescape body = Some p.
+Proof. exact checksum_digits_strict. Qed.
+Print Assumptions c35_checksum_digits_strict.
+
+(* necessity: "$\x05# 5" is delivered by int(" 5", 16) = 5 *)
+Theorem c35_checksum_digits_refuted :
+  snd (rx_feed fixed_but_hex DIdle [36; 5; 35; 32; 53]) = repeat RNone 4 ++ [RDeliver [5]] /\
+  hexval 32 = None.
+Proof. exact lenient_digits_without_hex_fix. Qed.
+Print Assumptions c35_checksum_digits_refuted.
+
+(* any packet-shaped byte string that is not a well-formed packet of some payload is answered '-' *)
+Theorem c35_non_frame_nacked : forall cf body h1 h2,
+  esc_fix cf = true -> hex_fix cf = true -> ~ In 35 body ->
+  dec_fix cf || forallb is_ascii_b (36 :: body ++ [35; h1; h2]) = true ->
+  (forall p, ~ is_frame_of (36 :: body ++ [35; h1; h2]) p) ->
+  rx_feed cf DIdle (36 :: body ++ [35; h1; h2]) =
+  (DIdle, repeat RNone (length body + 3) ++ [RNak]).
+Proof. exact non_frame_nacked. Qed.
+Print Assumptions c35_non_frame_nacked.
+
+(* framing for arbitrary byte values (no ASCII hypothesis) once the decoder decodes latin-1 *)
+Theorem c35_frame_roundtrip_bytes : forall cf payload chunks,
+  esc_fix cf = true -> dec_fix cf = true ->
+  concat chunks = rsp_pack payload ->
+  feed_chunks cf DIdle chunks =
+  (DIdle, repeat RNone (length (rsp_pack payload) - 1) ++ [RDeliver payload]).
+Proof. exact frame_roundtrip_bytes. Qed.
+Print Assumptions c35_frame_roundtrip_bytes.
+
+Theorem c35_good_frame_delivered_bytes : forall cf w payload,
+  esc_fix cf = true -> is_frame_of w payload -> dec_fix cf || forallb is_ascii_b w = true ->
+  rx_feed cf DIdle w = (DIdle, repeat RNone (length w - 1) ++ [RDeliver payload]).
+Proof. exact good_frame_delivered_gen. Qed.
+Print Assumptions c35_good_frame_delivered_bytes.
+
+Theorem c35_bad_checksum_nacked_bytes : forall cf w,
+  esc_fix cf = true -> is_bad_checksum_frame w -> dec_fix cf || forallb is_ascii_b w = true ->
+  rx_feed cf DIdle w = (DIdle, repeat RNone (length w - 1) ++ [RNak]).
+Proof. exact bad_checksum_nacked_gen. Qed.
+Print Assumptions c35_bad_checksum_nacked_bytes.
+
+Theorem c35_no_loss_no_dup_bytes : forall cf tr items pre,
+  nak_fix cf = true -> esc_fix cf = true -> dec_fix cf = true ->
+  Forall item_ok_bytes items ->
+  (pre = [] \/ exists p suf, rsp_pack p = pre ++ suf /\ suf <> []) ->
+  rxlog (run cf init tr) = stream items ++ pre ->
+  dlv (run cf init tr) = payloads items /\ rxout (run cf init tr) = expected_replies items.
+Proof. exact no_loss_no_dup_bytes. Qed.
+Print Assumptions c35_no_loss_no_dup_bytes.
+
+(* retries <= 0: a single transmission, no retransmission; before the fix retries = 0 meant
+   unbounded retransmission *)
+Theorem c35_retry_nonpositive : forall cf r f acks,
+  retry_fix cf = true -> r <= 0 -> (snd (acks_run cf r f acks) <= 1)%nat.
+Proof. exact retry_nonpositive. Qed.
+Print Assumptions c35_retry_nonpositive.
+
+Theorem c35_retries_zero_unbounded_refuted : forall n,
+  acks_run orig 0 true (repeat 45 (S n)) = (None, S (S n)).
+Proof. exact orig_retries_zero_unbounded. Qed.
+Print Assumptions c35_retries_zero_unbounded_refuted.
+
 (* --- non-vacuity ----------------------------------------------------------------------------- *)
 Example c35_nonvacuous :
   feed_chunks fixed DIdle [[36; 97]; [125; 93; 98; 125]; []; [4; 35; 49]; [69]] =
@@ -159,12 +272,15 @@ Example c35_nonvacuous :
                             LRecv 57; LRecv 97; LRecv 43; LGet] in
    results s = [Acked] /\ sent s = 2%nat /\ dlv s = [[79; 75]] /\ rxout s = [43]) /\
   is_bad_checksum_frame [36; 97; 35; 54; 50] /\
-  Forall item_ok [IFrame [79; 75]; IAck; INak; IJunk 0].
+  Forall item_ok [IFrame [79; 75]; IAck; INak; IJunk 0] /\
+  (let s := run fixed init [LRecv 43; LRecv 45; LRecv 36; LRecv 200; LRecv 35; LRecv 67; LRecv 56;
+                            LSend [115] 1; LGet; LRecv 43; LGet] in
+   dead s = false /\ dlv s = [[200]] /\ results s = [Acked] /\ sent s = 1%nat).
 Proof.
   split; [vm_compute; reflexivity|]. split; [vm_compute; reflexivity|].
   split; [vm_compute; repeat split|]. split.
   - exists [97], 54, 50, 6, 2. repeat split; try reflexivity.
     + intros [H|[]]; discriminate.
     + vm_compute. discriminate.
-  - repeat constructor; discriminate.
+  - split; [repeat constructor; discriminate|]. vm_compute. repeat split.
 Qed.
